@@ -191,7 +191,7 @@ fn read_checks(store: &loose::Store, id: &ObjectId, kind: Kind, data: &[u8]) -> 
     let mut buf = vec![0xEE; 3]; // a dirty buffer must not matter
     match vkit::catch(|| store.try_find(id, &mut buf).map(|o| o.map(|d| (d.kind, d.data.to_vec())))) {
         Ok(Ok(Some((k, d)))) => {
-            if k != kind || d != data {
+            if k != kind || d != data || (oracle_broken("c11-read") && data.len() == 64) {
                 return Err(format!("read-back: try_find returns {} of {} bytes, written {} of {} bytes", kind_name(k), d.len(), kind_name(kind), data.len()));
             }
         }
@@ -246,45 +246,83 @@ fn git_ids(contents: &[(u8, usize, u8)]) -> Ids {
     Ids(map)
 }
 
-fn eval_write_read(ids: &Ids, c: &ObjCase) -> Verdict {
-    let kind = KINDS[c.kind as usize];
-    let Some(data) = content(kind, c.size, c.fill) else { return ok_trivial("not-constructible") };
-    let Some(want_id) = ids.0.get(&(c.kind, c.size, c.fill)) else { vkit::machinery!("no git id precomputed for {c:?}") };
-    let dir = scratch::Dir::new("c11w");
-    let (repo, objects) = make_repo(&dir);
-    let id = write_object(&c.path, &repo, &objects, kind, &data)?;
-    if id.to_string() != *want_id {
-        return bad("id", format!("{} writes the object as {id}, git computes {want_id}", c.path));
+static GIT_READS: AtomicU64 = AtomicU64::new(0);
+
+/// `git cat-file --batch` must read `hex` from `repo` as exactly (kind, data)
+fn git_reads(repo: &Path, hex: &str, kind: Kind, data: &[u8]) -> Result<(), String> {
+    GIT_READS.fetch_add(1, Ordering::Relaxed);
+    let out = git::try_git_in(repo, &["cat-file", "--batch"], format!("{hex}\n").as_bytes());
+    if !out.ok {
+        return Err(format!("git-cat-file-fails: {}", out.err_text()));
+    }
+    match parse_cat_file_batch(&out.stdout).into_iter().next() {
+        Some(Some((t, d))) => {
+            if t != kind_name(kind) || d != data {
+                return Err(format!("git-reads-different: git sees {t} of {} bytes ({}), written {} of {} bytes", d.len(), out.err_text(), kind_name(kind), data.len()));
+            }
+            Ok(())
+        }
+        _ => Err(format!("git-missing: git cat-file does not find {hex}: {}", out.err_text())),
+    }
+}
+
+/// write through one path into a fresh objects directory below `dir` and check everything that needs no git process;
+/// returns (repo, bytes of the loose file)
+fn write_and_check(dir: &scratch::Dir, path: &str, kind: Kind, data: &[u8], want_id: &str) -> Result<(PathBuf, Vec<u8>), String> {
+    let repo = dir.join(format!("{path}.git"));
+    for d in ["objects", "refs/heads"] {
+        if let Err(e) = std::fs::create_dir_all(repo.join(d)) {
+            vkit::machinery!("mkdir: {e}");
+        }
+    }
+    write_file(&repo.join("HEAD"), b"ref: refs/heads/main\n");
+    let objects = repo.join("objects");
+    let id = write_object(path, &repo, &objects, kind, data)?;
+    if id.to_string() != want_id {
+        return Err(format!("id: {path} writes the object as {id}, git computes {want_id}"));
     }
     let hex = id.to_string();
     let rel = format!("{}/{}", &hex[..2], &hex[2..]);
     let files = list_files(&objects);
     if files != vec![rel.clone()] {
-        return bad("files", format!("objects directory holds {files:?} after the write, expected only {rel}"));
-    }
-    // git reads the file
-    let out = git::try_git_in(&repo, &["cat-file", "--batch"], format!("{hex}\n").as_bytes());
-    if !out.ok {
-        return bad("git-cat-file-fails", out.err_text());
-    }
-    match parse_cat_file_batch(&out.stdout).into_iter().next() {
-        Some(Some((t, d))) => {
-            if t != kind_name(kind) || d != data {
-                return bad("git-reads-different", format!("git sees {t} of {} bytes ({}), written {} of {} bytes", d.len(), out.err_text(), kind_name(kind), data.len()));
-            }
-        }
-        _ => return bad("git-missing", format!("git cat-file does not find {hex}: {}", out.err_text())),
+        return Err(format!("files: objects directory holds {files:?} after {path}, expected only {rel}"));
     }
     let store = loose::Store::at(&objects, SHA1);
-    read_checks(&store, &id, kind, &data)?;
-    // writing the same object again succeeds and changes nothing
-    if !c.path.starts_with("git") {
-        let id2 = write_object(&c.path, &repo, &objects, kind, &data)?;
+    read_checks(&store, &id, kind, data).map_err(|e| format!("{e} [written by {path}]"))?;
+    if !path.starts_with("git") {
+        // writing the same object again succeeds and changes nothing
+        let id2 = write_object(path, &repo, &objects, kind, data)?;
         if id2 != id || list_files(&objects) != vec![rel.clone()] {
-            return bad("rewrite", format!("second write yields {id2}, files {:?}", list_files(&objects)));
+            return Err(format!("rewrite: second {path} yields {id2}, files {:?}", list_files(&objects)));
         }
-        read_checks(&store, &id, kind, &data)?;
+        read_checks(&store, &id, kind, data).map_err(|e| format!("{e} [after second {path}]"))?;
     }
+    let bytes = std::fs::read(objects.join(&rel)).unwrap_or_else(|e| vkit::machinery!("read back loose file: {e}"));
+    Ok((repo, bytes))
+}
+
+fn eval_write_read(ids: &Ids, c: &ObjCase) -> Verdict {
+    let kind = KINDS[c.kind as usize];
+    let Some(data) = content(kind, c.size, c.fill) else { return ok_trivial("not-constructible") };
+    let Some(want_id) = ids.0.get(&(c.kind, c.size, c.fill)) else { vkit::machinery!("no git id precomputed for {c:?}") };
+    let dir = scratch::Dir::new("c11w");
+    if c.path == "gix-all" {
+        // all six gitoxide write paths; git is asked to read every *distinct* file they produce
+        let mut seen: Vec<Vec<u8>> = Vec::new();
+        for path in GIX_PATHS {
+            if path == "stream-1" && c.size > 70_000 {
+                continue;
+            }
+            let (repo, bytes) = write_and_check(&dir, path, kind, &data, want_id)?;
+            if !seen.contains(&bytes) {
+                git_reads(&repo, want_id, kind, &data).map_err(|e| format!("{e} [written by {path}]"))?;
+                seen.push(bytes);
+            }
+        }
+        return ok(format!("gix-all:{}:{}:distinct-files={}", kind_name(kind), size_class(kind, c.size), seen.len()));
+    }
+    let (repo, _bytes) = write_and_check(&dir, &c.path, kind, &data, want_id)?;
+    git_reads(&repo, want_id, kind, &data)?;
     ok(format!("{}:{}:{}", c.path, kind_name(kind), size_class(kind, c.size)))
 }
 
@@ -367,7 +405,8 @@ pub fn run(run: &'static Run) {
     run.rule(
         "write-read: kinds {blob,tree,commit,tag} x sizes {0,1,2,3, every size with header+body in 62..66 (64-byte header buffer), 2^k-1/2^k/2^k+1 for 128,192,256,4096,8192,32768,65536, 70000; \
          thorough adds 1024,16384,131072,2^20 (+-1)} x fill {compressible (zeros / 'a'), incompressible LCG bytes (printable for non-blobs)} \
-         x write path {write_buf, write_stream with reads of all/1/7/4096 bytes, write(typed object), git hash-object -w with core.looseCompression default/0/1/9}; \
+         x write path {write_buf, write_stream with reads of all/1/7/4096 bytes (1-byte reads up to 70000 bytes), write(typed object) — one case runs all six and lets git read every distinct file they produce —, \
+         git hash-object -w with core.looseCompression default/0 (quick) + 1/9 (thorough)}; \
          truncate: for the files written by write_buf, git (default) and git level 0: EVERY length 0..file_len-1 (files of objects > 9000 bytes that do not compress are split into 16 ranges, restricted to blobs in quick, and skipped above 140000 bytes); \
          non-trivial = object written, id == git's, read back by git and gitoxide / a non-empty range of truncations all refused",
     );
@@ -388,14 +427,17 @@ pub fn run(run: &'static Run) {
     run.cov("distinct_contents", contents.len());
     let ids = git_ids(&contents);
     let ids = &ids;
+    let t0 = std::time::Instant::now();
+    let lap = |name: &str| run.cov(&format!("wall_s_until_after_{name}"), (t0.elapsed().as_secs_f64() * 10.0).round() / 10.0);
     run.sub_with(
         "write-read",
         vkit::Opts::default().chunk(256),
         |emit| {
             for &(kind, size, fill) in &contents {
-                for path in GIX_PATHS.iter().chain(GIT_PATHS.iter()) {
-                    // one byte per read call is slow for the largest objects: keep it to sizes <= 70000
-                    if *path == "stream-1" && size > 70_000 {
+                emit(ObjCase { kind, size, fill, path: "gix-all".to_string() });
+                for path in GIT_PATHS {
+                    // quick: default level and level 0 (stored blocks)
+                    if run.quick() && (path == "git-l1" || path == "git-l9") {
                         continue;
                     }
                     emit(ObjCase { kind, size, fill, path: path.to_string() });
@@ -404,6 +446,7 @@ pub fn run(run: &'static Run) {
         },
         |c| eval_write_read(ids, c),
     );
+    lap("write-read");
     run.sub_with(
         "truncate",
         vkit::Opts::default().chunk(128),
@@ -428,11 +471,15 @@ pub fn run(run: &'static Run) {
         },
         eval_truncate,
     );
+    run.cov("git_cat_file_reads", GIT_READS.load(Ordering::Relaxed));
     run.cov("truncation_lengths_evaluated", TRUNCATIONS.load(Ordering::Relaxed));
     run.cov("truncations_where_header_still_readable", TRUNC_HEADER_OK.load(Ordering::Relaxed));
     if !run.over_budget() {
         run.require("truncations were evaluated", TRUNCATIONS.load(Ordering::Relaxed) > 1000);
-        run.require("an object with header+body == 64 bytes was written and read", run.outcome_count("buf:blob:inflated=64") > 0);
+        run.require(
+            "an object with header+body == 64 bytes was written and read",
+            run.outcome_count("gix-all:blob:inflated=64:distinct-files=1") + run.outcome_count("gix-all:blob:inflated=64:distinct-files=2") > 0,
+        );
         run.require("objects written by git were read", run.outcome_count("git:blob:inflated>32k") > 0);
     }
 }
